@@ -188,6 +188,7 @@ func (ww *WW) faultOp(w, op string, k int, fkind string) (fired bool) {
 	} else if fkind == "reqloss" {
 		W.Net.Faults[w] = &NetFault{ReqLoss: true, Skip: k - 1}
 	}
+	meltQuoteID := ""
 	crashed := W.WalletOp(w, ww.name("crash."+w), plans, func(wl *wallet.Wallet) {
 		switch op {
 		case "mint":
@@ -211,10 +212,14 @@ func (ww *WW) faultOp(w, op string, k int, fkind string) (fired bool) {
 			if e != nil {
 				return
 			}
+			meltQuoteID = q.Quote
 			wl.Melt(q.Quote)
 		}
 	})
 	delete(W.Net.Faults, w)
+	if meltQuoteID != "" {
+		ww.PendQ[w] = append(ww.PendQ[w], meltQuoteID) // known to later resolve / remelt steps
+	}
 	if fkind != "crash" {
 		lost := W.S.Stats["fault_net_resp_loss"]+W.S.Stats["fault_net_req_loss"] > lossBefore
 		if lost {
